@@ -191,7 +191,11 @@ fn hostile_footer(u: &mut Unstructured) -> arbitrary::Result<Vec<u8>> {
             4 => format!("M{}.{}", num(u, 1, 12)?, num(u, 1, 5)?),
             _ => (*u.choose(&["J", "M", "M3", "M3.", "M3.5.", "Mx.1.0", "j60", "", "J0", "J366", "365", "366", "M13.1.0", "M3.0.0", "M3.6.0", "M3.5.7", "M0.1.0", "M2.5.0", "M12.5.6"])?).to_string(),
         };
-        s.push_str(match u.int_in_range(0..=11u8)? {
+        s.push_str(match u.int_in_range(0..=14u8)? {
+            // more colon-separated fields than hh:mm:ss has
+            12 => "/2:0:0:0",
+            13 => "/1:2:3:4:5",
+            14 => "/-3:00:00:",
             0 => "/25",
             1 => "/-168",
             2 => "/1:60",
@@ -215,7 +219,7 @@ fn hostile_footer(u: &mut Unstructured) -> arbitrary::Result<Vec<u8>> {
         0 => "25".to_string(),
         1 => "-25".to_string(),
         2 => "5:60".to_string(),
-        3 => "5:30:60".to_string(),
+        3 => (*u.choose(&["5:30:60", "5:30:10:1", "-1:0:0:0", "5:30:"])?).to_string(),
         4 => String::new(),
         5 => "99999999999999999999".to_string(),
         6 => "+".to_string(),
